@@ -24,7 +24,7 @@ use vh::{Case, Run};
 const PROTO: u16 = 0x00F7; // a protocol id nobody else handles
 
 #[derive(Debug, Clone, Serialize, Deserialize)]
-struct Msg {
+pub struct Msg {
     from_a: bool,
     len: u16,
     /// the receiver waits that long before calling recv (ms)
@@ -32,15 +32,15 @@ struct Msg {
 }
 
 #[derive(Debug, Clone, Serialize, Deserialize)]
-struct C09Case {
-    kind: SessKind,
-    script: Vec<Msg>,
-    plan: Plan,
-    sched: Option<u64>,
-    seed: u32,
+pub struct C09Case {
+    pub kind: SessKind,
+    pub script: Vec<Msg>,
+    pub plan: Plan,
+    pub sched: Option<u64>,
+    pub seed: u32,
 }
 
-fn case_strategy() -> impl Strategy<Value = C09Case> {
+pub fn case_strategy() -> impl Strategy<Value = C09Case> {
     (
         prop_oneof![
             Just(SessKind::Case),
@@ -80,7 +80,7 @@ fn case_strategy() -> impl Strategy<Value = C09Case> {
 }
 
 #[derive(Debug, Clone)]
-struct SendRec {
+pub struct SendRec {
     step: usize,
     t_start: u64,
     /// None = still pending when the simulation ended
@@ -88,7 +88,7 @@ struct SendRec {
 }
 
 #[derive(Debug, Clone)]
-struct RecvRec {
+pub struct RecvRec {
     /// step id carried in the payload, opcode
     step: usize,
     t: u64,
@@ -96,7 +96,7 @@ struct RecvRec {
 }
 
 #[derive(Default, Debug)]
-struct AppLog {
+pub struct AppLog {
     sends: Vec<SendRec>,
     recvs: Vec<RecvRec>,
     errors: Vec<String>,
@@ -175,7 +175,17 @@ fn min_backoff_us(base_ms: u64, k: usize) -> u64 {
     ((d - 2.0).max(0.0) * 1000.0) as u64
 }
 
-fn check(case: &C09Case) -> Case {
+pub struct SimOut {
+    pub net: Net,
+    pub planted: vh::sim::node::Planted,
+    pub la: AppLog,
+    pub lb: AppLog,
+    pub adv: adv::AdvLog,
+    pub end: u64,
+}
+
+/// Run the scenario; the oracle looks at the result afterwards.
+pub fn simulate(case: &C09Case) -> Result<SimOut, Case> {
     vh::sim::reset_universe();
     let net = Net::new(2);
     let ca = mk_crypto(case.seed);
@@ -196,7 +206,7 @@ fn check(case: &C09Case) -> Case {
         (case.seed % 251) as u8,
     ) {
         Ok(p) => p,
-        Err(e) => return Case::inconclusive(format!("planting sessions failed: {e:?}")),
+        Err(e) => return Err(Case::inconclusive(format!("planting sessions failed: {e:?}"))),
     };
 
     let adv_log = adv::install(&net, &case.plan);
@@ -247,13 +257,27 @@ fn check(case: &C09Case) -> Case {
         }
     }
     if stop == Stop::PollLimit {
-        return Case::inconclusive(format!("poll watchdog after {polls} polls"));
+        return Err(Case::inconclusive(format!("poll watchdog after {polls} polls")));
     }
+    let adv = adv_log.borrow().clone();
+    Ok(SimOut {
+        net,
+        planted,
+        la: log_a.into_inner(),
+        lb: log_b.into_inner(),
+        adv,
+        end: clock::now(),
+    })
+}
 
+fn check(case: &C09Case) -> Case {
+    let out = match simulate(case) {
+        Ok(o) => o,
+        Err(c) => return c,
+    };
+    let SimOut { net, planted, la, lb, adv, end } = out;
+    let (la, lb) = (&la, &lb);
     // ---------------------------------------------------------------- oracle
-    let la = log_a.borrow();
-    let lb = log_b.borrow();
-    let end = clock::now();
 
     let (nonce_a, nonce_b) = (planted.a_node_id, planted.b_node_id);
     let decode = |src: usize, bytes: &[u8]| -> Option<Wire> {
@@ -314,7 +338,7 @@ fn check(case: &C09Case) -> Case {
 
     // R1: each side's receive log is a duplicate-free, in-order subsequence of what the other
     // side sent, with intact payloads.
-    for (name, log, other_is_a) in [("A", &*la, false), ("B", &*lb, true)] {
+    for (name, log, other_is_a) in [("A", la, false), ("B", lb, true)] {
         let mut last: Option<usize> = None;
         for r in &log.recvs {
             if !r.payload_ok {
@@ -347,7 +371,7 @@ fn check(case: &C09Case) -> Case {
         }
     }
 
-    for (name, log, me) in [("A", &*la, 0usize), ("B", &*lb, 1usize)] {
+    for (name, log, me) in [("A", la, 0usize), ("B", lb, 1usize)] {
         let peer = 1 - me;
         for s in &log.sends {
             // transmissions of this step on the wire
@@ -510,7 +534,6 @@ fn check(case: &C09Case) -> Case {
         }
     }
 
-    let adv = adv_log.borrow();
     let disturbed = adv.dropped + adv.delayed + adv.duplicated > 0;
     if retransmissions > 0 {
         labels.push("retransmission".into());
